@@ -300,80 +300,124 @@ def _regex_admitted(pattern: str) -> tuple[set[str], bool]:
 def check_c25(A: Analysis, col: Collector):
     fn = A.func("pydra.compose.shell.builder.parse_command_line_template")
     col.scope(fn.qualname)
-    pats = {}
+    # string constants and compiled regexes, resolved through local definitions (no
+    # dependence on the variables' names)
+    consts: dict[str, str] = {}
     for n in walk_own(fn.node):
-        if isinstance(n, ast.Assign) and isinstance(n.targets[0], ast.Name) and n.targets[0].id.endswith("_pattern") and isinstance(n.value, ast.Constant) and isinstance(n.value.value, str):
-            pats[n.targets[0].id] = (n.value.value, n)
-    if "arg_pattern" not in pats or "opt_pattern" not in pats:
-        raise AnalysisError("parse_command_line_template: arg_pattern / opt_pattern constants not found")
-    admitted, wide = _regex_admitted(pats["arg_pattern"][0])
+        if isinstance(n, ast.Assign) and isinstance(n.targets[0], ast.Name) and isinstance(n.value, ast.Constant) and isinstance(n.value.value, str):
+            consts[n.targets[0].id] = n.value.value
+
+    def resolve_pat(e) -> str | None:
+        if isinstance(e, ast.Constant) and isinstance(e.value, str):
+            return e.value
+        if isinstance(e, ast.Name):
+            return consts.get(e.id)
+        if isinstance(e, ast.JoinedStr):
+            out = ""
+            for v in e.values:
+                if isinstance(v, ast.Constant):
+                    out += str(v.value)
+                else:
+                    r = resolve_pat(v.value)
+                    if r is None:
+                        return None
+                    out += r
+            return out
+        return None
+
+    regexes: dict[str, str] = {}
+    for n in walk_own(fn.node):
+        if isinstance(n, ast.Assign) and isinstance(n.targets[0], ast.Name) and isinstance(n.value, ast.Call) and dotted(n.value.func) == "re.compile" and n.value.args:
+            pat = resolve_pat(n.value.args[0])
+            if pat is not None:
+                regexes[n.targets[0].id] = pat
+    arg_pats = [p for p in regexes.values() if p.startswith("<")]
+    opt_pats = [p for p in regexes.values() if p.startswith("-")]
+    if not arg_pats or not opt_pats:
+        raise AnalysisError("parse_command_line_template: the compiled argument / option token patterns were not found")
+    arg_pattern = arg_pats[0]
+    kind_of = {}
+    for name, pat in regexes.items():
+        kind_of[name] = "arg" if pat.startswith("<") else "option" if pat.startswith("-") else "bool-option" if pat.startswith("(") else "?"
+    admitted, wide = _regex_admitted(arg_pattern)
     col.notes["arg_pattern_admits"] = "".join(sorted(c for c in admitted if not c.isalnum()))
-    # markers the handler dispatches on (string constants used in tests on the token text)
-    markers: dict[str, ast.AST] = {}
+    # the dispatch loop: a for loop whose first statement is an if-chain of `<re>.match(<loop var>)`
+    loops = []
     for n in walk_own(fn.node):
-        if isinstance(n, ast.Call) and isinstance(n.func, ast.Attribute) and n.func.attr in ("startswith", "endswith", "split") and n.args and isinstance(n.args[0], ast.Constant) and isinstance(n.args[0].value, str):
-            recv = norm(n.func.value)
-            if recv in ("name", "type_str", "var", "tp"):
-                markers.setdefault(n.args[0].value, n)
-        if isinstance(n, ast.Compare) and len(n.ops) == 1 and isinstance(n.ops[0], ast.In) and isinstance(n.left, ast.Constant) and isinstance(n.left.value, str) and norm(n.comparators[0]) in ("name", "tp", "var", "type_str"):
+        if isinstance(n, ast.For) and isinstance(n.target, ast.Name):
+            first = next((s_ for s_ in n.body if isinstance(s_, ast.If)), None)
+            if first is not None and any(isinstance(k, ast.Call) and isinstance(k.func, ast.Attribute) and k.func.attr == "match" and isinstance(k.func.value, ast.Name) and k.func.value.id in regexes for k in ast.walk(first.test)):
+                loops.append((n, first))
+    A.anchor("token dispatch loop", loops)
+    loop, chain = loops[0]
+    branches = []
+    cur = chain
+    while True:
+        rx = next((k.func.value.id for k in ast.walk(cur.test) if isinstance(k, ast.Call) and isinstance(k.func, ast.Attribute) and k.func.attr == "match" and isinstance(k.func.value, ast.Name) and k.func.value.id in regexes), None)
+        branches.append((kind_of.get(rx, "?"), cur))
+        if len(cur.orelse) == 1 and isinstance(cur.orelse[0], ast.If):
+            cur = cur.orelse[0]
+        else:
+            break
+    # markers the handler dispatches on: string constants in startswith/endswith/split/`in`/==
+    # tests inside the argument branch and the nested helpers it calls
+    regions = [b for k, b in branches if k == "arg"]
+    regions_nodes = [x for b in regions for st in b.body for x in ast.walk(st)]
+    for f in fn.nested.values():
+        regions_nodes += list(walk_own(f.node))
+    markers: dict[str, ast.AST] = {}
+    for n in regions_nodes:
+        if isinstance(n, ast.Call) and isinstance(n.func, ast.Attribute) and n.func.attr in ("startswith", "endswith", "split") and n.args and isinstance(n.args[0], ast.Constant) and isinstance(n.args[0].value, str) and isinstance(n.func.value, ast.Name):
+            markers.setdefault(n.args[0].value, n)
+        if isinstance(n, ast.Compare) and len(n.ops) == 1 and isinstance(n.ops[0], ast.In) and isinstance(n.left, ast.Constant) and isinstance(n.left.value, str) and isinstance(n.comparators[0], ast.Name):
             markers.setdefault(n.left.value, n)
-        if isinstance(n, ast.Compare) and len(n.ops) == 1 and isinstance(n.ops[0], ast.Eq) and isinstance(n.comparators[0], ast.Constant) and norm(n.left) == "tp" and isinstance(n.comparators[0].value, str):
+        if isinstance(n, ast.Compare) and len(n.ops) == 1 and isinstance(n.ops[0], ast.Eq) and isinstance(n.comparators[0], ast.Constant) and isinstance(n.left, ast.Name) and isinstance(n.comparators[0].value, str):
             markers.setdefault(n.comparators[0].value, n)
-    for fname, f in fn.nested.items():
-        for n in walk_own(f.node):
-            if isinstance(n, ast.Call) and isinstance(n.func, ast.Attribute) and n.func.attr == "split" and n.args and isinstance(n.args[0], ast.Constant) and norm(n.func.value) in ("type_str",):
-                markers.setdefault(n.args[0].value, n)
-            if isinstance(n, ast.Compare) and len(n.ops) == 1 and isinstance(n.ops[0], ast.In) and isinstance(n.left, ast.Constant) and norm(n.comparators[0]) == "tp":
-                markers.setdefault(n.left.value, n)
-            if isinstance(n, ast.Compare) and len(n.ops) == 1 and isinstance(n.ops[0], ast.Eq) and norm(n.left) == "tp" and isinstance(n.comparators[0], ast.Constant) and isinstance(n.comparators[0].value, str):
-                markers.setdefault(n.comparators[0].value, n)
+    markers = {k: v for k, v in markers.items() if any(not ch.isalnum() for ch in k)}
     if len(markers) < 8:
         raise AnalysisError(f"C25: only {len(markers)} template markers recognised in the handler ({sorted(markers)}); floor 8")
     for mk, node in sorted(markers.items()):
         need = {c for c in mk if not c.isalnum()}
         missing = need - admitted
-        if not missing or mk in ("int", "float", "str", "bool"):
-            col.ok("C25.agree", f"marker {mk!r} handled by the parser is admitted by arg_pattern", A.loc(node))
+        if not missing:
+            col.ok("C25.agree", f"marker {mk!r} handled by the parser is admitted by the argument token pattern", A.loc(node))
         else:
-            col.fail("C25.agree", fn.qualname, f"marker-not-lexed:{mk}", f"the handler acts on marker {mk!r} but arg_pattern does not admit {sorted(missing)}: the documented syntax can never reach its branch", A.loc(node))
-    # dispatch chain ends with raise
-    loops = [n for n in walk_own(fn.node) if isinstance(n, ast.For) and norm(n.iter) == "tokens" and any(isinstance(s, ast.If) and "arg_re.match" in norm(s.test) for s in n.body)]
-    A.anchor("token dispatch loop", loops)
-    chain = next(s for s in loops[0].body if isinstance(s, ast.If))
-    tests = []
-    cur = chain
-    while True:
-        tests.append(norm(cur.test, 60))
-        if len(cur.orelse) == 1 and isinstance(cur.orelse[0], ast.If):
-            cur = cur.orelse[0]
-        else:
-            break
+            col.fail("C25.agree", fn.qualname, f"marker-not-lexed:{mk}", f"the handler acts on marker {mk!r} but the argument token pattern does not admit {sorted(missing)}: the documented syntax can never reach its branch", A.loc(node))
     if cur.orelse and isinstance(cur.orelse[-1], ast.Raise):
-        col.ok("C25.unknown", f"a token matching none of {len(tests)} token classes raises ({norm(cur.orelse[-1], 50)})", A.loc(cur.orelse[-1]))
+        col.ok("C25.unknown", f"a token matching none of {len(branches)} token classes raises ({norm(cur.orelse[-1], 50)})", A.loc(cur.orelse[-1]))
     else:
         col.fail("C25.unknown", fn.qualname, "unknown-token-not-rejected", "a template token that matches no token class is silently ignored", A.loc(chain))
-    order = [("arg", "arg_re.match"), ("bool-option", "bool_arg_re.match"), ("option", "opt_re.match")]
-    seq = [next((nm for nm, pat in order if pat in t and (nm != "arg" or "bool" not in t)), "?") for t in tests]
+    seq = [k for k, _ in branches]
     if seq == ["arg", "bool-option", "option"]:
         col.ok("C25.unknown", "token classes are tried in the order argument, option+bool-argument, option", A.loc(chain))
     else:
         col.fail("C25.unknown", fn.qualname, "token-class-order:" + ">".join(seq), f"token classes are tried in the order {seq}: a '--flag<arg>' token is taken by an earlier class", A.loc(chain))
-    # option without a field
-    tail = [s for s in fn.node.body if isinstance(s, ast.If) and norm(s.test) == "option" and any(isinstance(k, ast.Raise) for k in s.body)]
+    # option without a field: the variable set in the option branch is tested after the loop
+    opt_branch = next((b for k, b in branches if k == "option"), None)
+    opt_var = None
+    if opt_branch is not None:
+        for st in opt_branch.body:
+            if isinstance(st, ast.Assign) and isinstance(st.targets[0], ast.Name) and norm(st.value) == loop.target.id:
+                opt_var = st.targets[0].id
+    tail = [s_ for s_ in fn.node.body if isinstance(s_, ast.If) and isinstance(s_.test, ast.Name) and s_.test.id == opt_var and any(isinstance(k, ast.Raise) for k in s_.body) and s_.lineno > loop.lineno]
     if tail:
         col.ok("C25.unknown", "a trailing option without a field raises", A.loc(tail[0]))
     else:
         col.fail("C25.unknown", fn.qualname, "dangling-option-accepted", "an option at the end of the template without a field is silently dropped", A.loc(fn.node))
-    # positions in template order
-    pos = [n for n in walk_own(fn.node) if isinstance(n, ast.For) and norm(n.iter) == "arguments"]
+    # positions in template order: the list filled by the nested helper is walked in order and
+    # unpositioned entries take remaining_positions(...).pop(0)
+    rem_vars = {n.targets[0].id for n in walk_own(fn.node) if isinstance(n, ast.Assign) and isinstance(n.targets[0], ast.Name) and isinstance(n.value, ast.Call) and any(q.endswith("remaining_positions") for q in A.callee_names(n.value, fn))}
+    appended = {norm(c.func.value) for f in fn.nested.values() for c in A.calls(f) if isinstance(c.func, ast.Attribute) and c.func.attr == "append" and isinstance(c.func.value, ast.Name)}
     okp = False
-    for lp in pos:
-        t = norm(lp)
-        if "position is None" in t and "remaining_pos.pop(0)" in t:
-            okp = True
-    appends = [c for f in fn.nested.values() for c in A.calls(f) if isinstance(c.func, ast.Attribute) and c.func.attr == "append" and norm(c.func.value) == "arguments"]
-    if okp and appends:
-        col.ok("C25.position", "arguments are collected in template order and unpositioned ones receive remaining_positions(...).pop(0) in that order", A.loc(pos[0]))
+    for lp in walk_own(fn.node):
+        if isinstance(lp, ast.For) and isinstance(lp.iter, ast.Name) and lp.iter.id in appended and isinstance(lp.target, ast.Name):
+            v = lp.target.id
+            has_test = any(isinstance(k, ast.If) and norm(k.test) == f"{v}.position is None" for k in ast.walk(lp))
+            pops = any(isinstance(k, ast.Call) and isinstance(k.func, ast.Attribute) and k.func.attr == "pop" and isinstance(k.func.value, ast.Name) and k.func.value.id in rem_vars and k.args and norm(k.args[0]) == "0" for k in ast.walk(lp))
+            if has_test and pops:
+                okp = True
+    if okp:
+        col.ok("C25.position", "arguments are collected in template order and unpositioned ones receive remaining_positions(...).pop(0) in that order", A.loc(fn.node))
     else:
         col.fail("C25.position", fn.qualname, "positions-not-in-template-order", "implicit positions are no longer assigned in template order", A.loc(fn.node))
     # the executable: leading tokens up to the first '<' or '-'
@@ -434,7 +478,10 @@ def check_c26(A: Analysis, col: Collector):
     else:
         col.fail("C26.reroot", fn.qualname, "return-before-reroot", "the template-derived value is returned before / without the re-rooting block", A.loc(fn.node))
     # (b) explicit value precedes formatting
-    early = [n for n in walk_own(fn.node) if isinstance(n, ast.If) and "isinstance(field_value" in norm(n.test) and "Path" in norm(n.test) and n.body and isinstance(n.body[0], ast.Return) and norm(n.body[0].value) == "field_value"]
+    early = []
+    for n in walk_own(fn.node):
+        if isinstance(n, ast.If) and isinstance(n.test, ast.Call) and dotted(n.test.func) == "isinstance" and len(n.test.args) == 2 and isinstance(n.test.args[0], ast.Name) and "Path" in norm(n.test.args[1]) and n.body and isinstance(n.body[0], ast.Return) and norm(n.body[0].value) == n.test.args[0].id:
+            early.append(n)
     if early and all(e.lineno < c.lineno for e in early for c in fmt_calls):
         col.ok("C26.explicit", "an explicitly supplied Path/list is returned as given before any template formatting", A.loc(early[0]))
     else:
